@@ -3,6 +3,8 @@ CONSTANTS
   MaxN = 3
   S = 2
   CloseOn = "wg"
+  Ann = {1}
+  ErrCheck = FALSE
 INVARIANTS TypeOK Conservation CloseAfterDrain EofComplete PerSourceOrder NoStall AllDone BlockedConsumerReleased NoopCloseStartsNothing
 PROPERTIES Settles LiveTerminates
 CHECK_DEADLOCK FALSE
